@@ -1960,6 +1960,10 @@ class DesignSpace:
         for name, val in self.__current_value.items():
             self.__current_value[name] = array(val, dtype=complex128)
 
+        # The normalization data depend on the data type of the current value.
+        self.__norm_data_is_computed = False
+        self.__clear_dependent_data()
+
     @classmethod
     def from_file(
         cls,
